@@ -148,7 +148,8 @@ theorem split_bank_branch (X : Ctx) (e : Country) (vs : List (Component × Str))
     country's published position of `b`. -/
 theorem generate_ok (X : Ctx) (hU : X.U.WF) (hT : X.T.WF) {cc : Str} (hA : defaultsNat X.A cc)
     {bank account branch i : Str} (h : IBAN.generate X cc bank account branch = .ok i) :
-    ∃ e b, X.T.lookup cc = some e ∧ b.length = e.bbanLength ∧ i.take 2 = cc ∧ i.drop 4 = b ∧
+    ∃ e b, X.T.lookup cc = some e ∧ BBAN.fromComponents X cc (genArgs bank account branch) = .ok b ∧
+      b.length = e.bbanLength ∧ i.take 2 = cc ∧ i.drop 4 = b ∧
       isoValid X.T i = true ∧ (IBAN.new X i false false) = .ok i ∧
       ∀ k r, publishedAt e k r → k ≠ .nationalChecksumDigits →
         slice b r.start r.stop = splitComps X e (genArgs bank account branch) k := by
@@ -242,7 +243,7 @@ theorem generate_ok (X : Ctx) (hU : X.U.WF) (hT : X.T.WF) {cc : Str} (hA : defau
         | accountHolderId => rw [hsp _ (by decide) (by decide)]; simp [padComps, hv2, clean_nil, zfill_length]
         | currencyCode => rw [hsp _ (by decide) (by decide)]; simp [padComps, hv3, clean_nil, zfill_length]
       have hpl := fromComponents_placement X hU hW (genArgs bank account branch) hcsC hfit hbeq hblen
-      refine ⟨e, b, hl, hblen, ?_, ?_, ?_, ?_, hpl.1⟩
+      refine ⟨e, b, hl, hb, hblen, ?_, ?_, ?_, ?_, hpl.1⟩
       · rw [hi]; exact htake
       · rw [hi]; exact hdrop
       · rw [hi]; exact hiso
@@ -294,7 +295,9 @@ theorem live_generate_total (R : Registry) (cc bank account branch : Str) :
     published positions. -/
 theorem live_generate_ok (R : Registry) {cc bank account branch i : Str}
     (h : IBAN.generate (Gen.ctx R) cc bank account branch = .ok i) :
-    ∃ e b, Gen.table.lookup cc = some e ∧ b.length = e.bbanLength ∧ i.take 2 = cc ∧ i.drop 4 = b ∧
+    ∃ e b, Gen.table.lookup cc = some e ∧
+      BBAN.fromComponents (Gen.ctx R) cc (genArgs bank account branch) = .ok b ∧
+      b.length = e.bbanLength ∧ i.take 2 = cc ∧ i.drop 4 = b ∧
       isoValid Gen.table i = true ∧ (IBAN.new (Gen.ctx R) i false false) = .ok i ∧
       ∀ k r, publishedAt e k r → k ≠ .nationalChecksumDigits →
         slice b r.start r.stop = splitComps (Gen.ctx R) e (genArgs bank account branch) k :=
